@@ -217,7 +217,11 @@ class WsSession:
             parts = [data] if not chunks else chunks
             for p in parts:
                 if p:
-                    self.h2c.send_data(1, p)
+                    try:
+                        self.h2c.send_data(1, p)
+                    except Exception:  # noqa: BLE001  (the server has closed the stream: the client cannot send any more)
+                        self.events.append(("client-cannot-send",))
+                        break
                     self.rig.feed(self.h2c.data_to_send())
                     self.rig.run()
         self.pump()
